@@ -96,7 +96,13 @@ func (s *Schema) Example() (b []byte, err error) {
 		return nil, errors.NewDocumentError(s.file, errors.ErrEmptySchema)
 	}
 
-	return newExampleBuilder(s.inner.TypesList()).Build(s.inner.RootNode())
+	ex, err := newExampleBuilder(s.inner.TypesList()).Build(s.inner.RootNode())
+	if err != nil {
+		return nil, err
+	}
+	// The builder works in pooled buffers which are reused by the next call:
+	// hand out a copy.
+	return append([]byte(nil), ex...), nil
 }
 
 func (s *Schema) AddType(name string, sc jschema.Schema) (err error) {
